@@ -113,7 +113,7 @@ def run(chk):
         try:
             try:
                 conn = Connection('example.org', 25570, username='user',
-                                  allowed_versions=None if al_spec is None else [to_py(s) for s in al_spec],
+                                  allowed_versions=None if al_spec is None else shape(rng, [to_py(s) for s in al_spec]),
                                   initial_version=None if ini_spec is None else to_py(ini_spec))
             except ValueError:
                 o['construct'] = 'ValueError'
@@ -181,6 +181,22 @@ def run(chk):
     chk.sample('negotiate', {'allowed': [47, 757], 'server': ['proto', 47], 'conns': obs[0].get('conns')}, k=1)
     chk.assumptions += ['json.loads is library code: the model starts from the shape of the parsed status object; the harness generates the text',
                         'the clock (timeit.default_timer) is replaced by a deterministic monotone fake']
+
+
+def shape(rng, items):
+    """the same versions as the kinds of iterable a caller may pass (the order of a list is the caller's; sets have their own)"""
+    k = rng.randrange(7)
+    if k == 0:
+        return tuple(items)
+    if k == 1:
+        return (x for x in items)                 # a generator: can be iterated once
+    if k == 2:
+        return iter(list(items))
+    if k == 3:
+        return map(lambda x: x, items)
+    if k == 4:
+        return dict.fromkeys(items).keys()
+    return list(items)
 
 
 def status_queries(chk):
